@@ -39,6 +39,7 @@ func (p c01) Batches(tier string, seed uint64) []core.Batch {
 	b = append(b, spread("exh", tierN(tier, 16, 64), 0)...)
 	b = append(b, spread("rand", 16, tierN(tier, 8000, 60000))...)
 	b = append(b, spread("less", 4, tierN(tier, 200, 1000))...)
+	b = append(b, spread("corpus", 8, 0)...) // all pairs of the versions in this machine's dpkg database
 	b = append(b, spread("dpkg", 16, tierN(tier, 60, 400))...)
 	b = append(b, spread("perl", 4, tierN(tier, 5000, 40000))...)
 	return b
@@ -138,6 +139,29 @@ func (p c01) RunBatch(t *core.T, b core.Batch) {
 					c.Failf("Compare(%s, %s) has sign %d, statement says %s", e[0], e[1], got, e[2])
 				}
 				c.Cover("pinned")
+			})
+		}
+	case "corpus":
+		seen := map[string]bool{}
+		var vs []model.Ver
+		for _, s := range corpusFieldValues("Version") {
+			if !seen[s] {
+				seen[s] = true
+				vs = append(vs, splitText(s))
+			}
+		}
+		if len(vs) == 0 {
+			t.Cover("corpus:unavailable")
+			return
+		}
+		for i := b.Arg; i < len(vs); i += 8 {
+			a := vs[i]
+			t.Case("corpus-row", []byte(encVer(a)), func(c *core.C) {
+				for _, bb := range vs {
+					p.judge(t, rc, a, bb, true)
+				}
+				t.Light(int64(len(vs)) - 1)
+				c.Cover("corpus:dpkg-database-version-rows")
 			})
 		}
 	case "exh":
